@@ -1,6 +1,6 @@
 // Runtime contract check of the LSP glue (attached to harper-ls/src/document_state.rs). BOUNDED stand-in
 // for the parts of C08 outside pos_conv (Url / HashMap / serde_json / LintGroup are outside both verifiers):
-// for 14 texts (astral and combining characters, tabs, LF and CRLF line ends, with and without a trailing
+// for 16 texts (astral and combining characters, tabs, LF and CRLF line ends, with and without a trailing
 // newline, lints on the first / a middle line) and every lint they produce:
 //   (1) the diagnostic range equals the reference LSP positions (line = LF count, column = UTF-16 units)
 //       of the lint's character span;
@@ -50,10 +50,13 @@ fn rac_lsp_glue() {
         "Tab\tan test\there.\nfin\n",
         "It's 1th, 2th and 3th.\nend\n",
         "\n\nAn test after blank lines.\n.\n",
+        "I like apples, oranges and bananas.\nnext\n",
+        "😀 ok\r\nShe bought milk, eggs and bread 😀 today.\r\nend\r\n",
     ];
     let cfg = CodeActionConfig { force_stable: false };
     let mut cases = 0u64;
     let mut nontrivial = 0u64;
+    let mut seen_insert_after = false;
     for text in texts.iter() {
         let src: Vec<char> = text.chars().collect();
         let mut st = DocumentState::default();
@@ -86,6 +89,7 @@ fn rac_lsp_glue() {
                 let actions = st.generate_code_actions(req, &cfg);
                 for sug in lint.suggestions.iter() {
                     nontrivial += 1;
+                    if matches!(sug, Suggestion::InsertAfter(_)) { seen_insert_after = true; }
                     let mut expect = src.clone();
                     sug.apply(lint.span, &mut expect);
                     let title = sug.to_string();
@@ -112,5 +116,6 @@ fn rac_lsp_glue() {
             }
         }
     }
-    println!("RAC-OK lsp_glue cases={} nontrivial={} bound=14-texts,every-lint,every-cursor-position", cases, nontrivial);
+    if !seen_insert_after { println!("RAC-CEX lsp_glue {{\"why\": \"vacuity guard: no InsertAfter suggestion was exercised\"}}"); panic!("vacuous"); }
+    println!("RAC-OK lsp_glue cases={} nontrivial={} bound=16-texts,every-lint,every-cursor-position", cases, nontrivial);
 }
